@@ -313,6 +313,22 @@ proof fn vac__intercepted_htlc_is_failed_back(htlc: &PendingAddHTLCInfo, height:
     requires htlc.forward_info.outgoing_cltv_value >= HTLC_FAIL_BACK_BUFFER, height <= 0x7fff_ffff,
     ensures false
 {}
+// ---- when an HTLC still waiting in the holding cell is given up (deep R15 slice of FundedChannel::do_best_block_updated) ----
+fn holding_cell_add_is_kept(cltv_expiry: &u32, height: u32) -> (kept: bool)
+    requires
+    height <= 0x7fff_ffff,
+
+    ensures
+    kept <==> *cltv_expiry as int > height + LATENCY_GRACE_PERIOD_BLOCKS,
+ {
+        let unforwarded_htlc_cltv_limit = height + LATENCY_GRACE_PERIOD_BLOCKS;
+        if *cltv_expiry <= unforwarded_htlc_cltv_limit { false } else { true }
+    }
+
+proof fn vac__holding_cell_add_is_kept(cltv_expiry: &u32, height: u32) 
+    requires height <= 0x7fff_ffff,
+    ensures false
+{}
 // (P, C08) with the heights above, the forwarding race of lemma_forward_race is the one the monitor really runs:
 // downstream silent => on chain at outgoing + LATENCY; upstream claimable (preimage known) => on chain from incoming - CLTV_CLAIM_BUFFER
 pub proof fn lemma_on_chain_heights_close_the_race(incoming: int, outgoing: int, delta: int)
